@@ -1425,6 +1425,10 @@ def cache_item(item):
 
 
 NOT_REJECTED = "cache:damaged-payload-not-rejected"
+# A load of the 18 KB cache of the sweep map takes ~0.05 s.  Some single-byte damages make
+# pickle.load allocate gigabytes and run for over a minute (measured stand-alone: 69 s,
+# 2.4 GB RSS) before returning: the child is killed after this many seconds without a result.
+LOAD_DEADLINE_S = 25
 
 
 def judge_damaged_cache(rel, mp, ca, data, pos):
@@ -1574,7 +1578,7 @@ def sweep_item(item):
             b = bytearray(good)
             b[pos] = (b[pos] + 1) % 256
             jobs.append((rel, mp, ca, bytes(b), pos))
-        for job, (how, res) in zip(jobs, isolated_each(judge_damaged_cache, jobs)):
+        for job, (how, res) in zip(jobs, isolated_each(judge_damaged_cache, jobs, deadline_s=LOAD_DEADLINE_S)):
             pos = job[4]
             zone = "header" if pos < cm.HEADER else "payload"
             if how == "ok":
@@ -1585,7 +1589,7 @@ def sweep_item(item):
             else:
                 out[f"{zone}:process-{how}"] += 1
                 case = {"part": "sweep", "map": rel, "pos": pos, "cache_b64": base64.b64encode(job[3]).decode()}
-                what = f"the loading process died (wait status {res})" if how == "crashed" else "the load did not return within the deadline"
+                what = f"the loading process died (wait status {res})" if how == "crashed" else f"the load did not return within {LOAD_DEADLINE_S} s (a normal load takes ~0.05 s)"
                 viol.append((NOT_REJECTED if zone == "payload" else "cache:damaged-header-kills-load", f"cache of {rel} ({len(job[3])} bytes) with byte {pos} incremented by one: {what}", case))
         seen = collections.Counter()
         keep = []
@@ -1988,7 +1992,7 @@ def replay(ctx, case):
             (d / "m.xodr").write_bytes(REFS[case["map"]]["contents"][(0, 0)])
             data = base64.b64decode(case["cache_b64"])
             zone = "header" if case["pos"] < cm.HEADER else "payload"
-            ((how, res),) = isolated_each(judge_damaged_cache, [(case["map"], d / "m.xodr", d / "m.snet", data, case["pos"])])
+            ((how, res),) = isolated_each(judge_damaged_cache, [(case["map"], d / "m.xodr", d / "m.snet", data, case["pos"])], deadline_s=LOAD_DEADLINE_S)
             if how == "ok":
                 if res[1] is not None:
                     ctx.violation(*res[1])
